@@ -68,13 +68,16 @@ func (f *PostProcessorRegistrationDelegate) applyDefinitionRegistryPostProcessor
 	var wg sync.WaitGroup
 	for _, processor := range factory.GetDefinitionRegistryPostProcessors() {
 		var errs []error
+		var errsLock sync.Mutex
 		wg.Add(len(components))
 		for name, component := range components {
 			go func(name string, component any) {
 				defer wg.Done()
 				err := processor.PostProcessDefinitionRegistry(factory.GetDefinitionRegistry(), component, name)
 				if err != nil {
+					errsLock.Lock()
 					errs = append(errs, errors.WithMessage(err, name))
+					errsLock.Unlock()
 				}
 			}(name, component)
 		}
